@@ -508,6 +508,54 @@ fn raa_probe(a: &mut Vec<i128>) -> String {
 	}
 }
 
+/// commitment_signed_probe <n_htlc_sigs 0..2> <htlc_sigs_valid 0/1>
+/// Two real nodes; node 0 adds one (non-dust) HTLC and signs node 1's next commitment. The commitment_signed is then
+/// altered - its single HTLC signature dropped (0), kept (1) or duplicated (2), and, if htlc_sigs_valid = 0, replaced
+/// by the (valid, but wrong) commitment signature - and delivered to node 1. Output: 0 if node 1 rejected it by
+/// closing the channel, 1 if it did not (the channel is still open, or a later stage crashed on the accepted message).
+fn commitment_signed_probe(a: &mut Vec<i128>) -> String {
+	use lightning::ln::channelmanager::PaymentId;
+	use lightning::ln::msgs::ChannelMessageHandler;
+	use lightning::ln::outbound_payment::RecipientOnionFields;
+	let (n_sigs, valid) = (a[0] as usize, a[1] != 0);
+	let chanmon_cfgs = create_chanmon_cfgs(2);
+	let node_cfgs = create_node_cfgs(2, &chanmon_cfgs);
+	let node_chanmgrs = create_node_chanmgrs(2, &node_cfgs, &[None, None]);
+	let nodes = create_network(2, &node_cfgs, &node_chanmgrs);
+	let node_a_id = nodes[0].node.get_our_node_id();
+	create_announced_chan_between_nodes(&nodes, 0, 1);
+	let (route, payment_hash, _, payment_secret) = lightning::get_route_and_payment_hash!(nodes[0], nodes[1], 3_000_000);
+	let onion = RecipientOnionFields::secret_only(payment_secret, 3_000_000);
+	nodes[0].node.send_payment_with_route(route, payment_hash, onion, PaymentId(payment_hash.0)).unwrap();
+	check_added_monitors(&nodes[0], 1);
+	let mut events = nodes[0].node.get_and_clear_pending_msg_events();
+	let mut payment_event = SendEvent::from_event(events.remove(0));
+	nodes[1].node.handle_update_add_htlc(node_a_id, &payment_event.msgs[0]);
+	let cs = &mut payment_event.commitment_msg[0];
+	if cs.htlc_signatures.len() != 1 {
+		return "error expected one HTLC signature".to_string();
+	}
+	if !valid {
+		cs.htlc_signatures[0] = cs.signature;
+	}
+	match n_sigs {
+		0 => cs.htlc_signatures.clear(),
+		1 => {},
+		_ => { let s0 = cs.htlc_signatures[0]; cs.htlc_signatures.push(s0); },
+	}
+	// a message that passes validation but is malformed makes later stages assert (e.g. the monitor's
+	// `nondust_htlcs().len() == counterparty_htlc_sigs.len()`): that is 'not rejected' too
+	let delivered = catch_unwind(AssertUnwindSafe(|| {
+		nodes[1].node.handle_commitment_signed_batch_test(node_a_id, &payment_event.commitment_msg);
+		nodes[1].node.list_channels().len()
+	}));
+	core::mem::forget(nodes);
+	match delivered {
+		Ok(open) => format!("{}", open),
+		Err(_) => "1".to_string(),
+	}
+}
+
 fn main() {
 	if std::env::var("ORACLE_DEBUG").is_err() { std::panic::set_hook(Box::new(|_| {})); }
 	let stdin = std::io::stdin();
@@ -533,6 +581,7 @@ fn main() {
 			"claim_deadline_probe" => claim_deadline_probe(&mut args),
 			"mpp_partial_claim_probe" => mpp_partial_claim_probe(&mut args),
 			"raa_probe" => raa_probe(&mut args),
+			"commitment_signed_probe" => commitment_signed_probe(&mut args),
 			_ => format!("error unknown function {}", name),
 		}));
 		match r {
